@@ -1201,4 +1201,178 @@ theorem classify_saveBytes (r : PDict Int Node) (h : RegOK r) (hi : regIntsOK r 
   rw [e] at hp hdec
   simp only [classify, saveBytes, e, hdec, hp]
 
+/-! ## Registries in any insertion order
+
+`save` writes every registry in key order: the file of `r` is the file of its canonical
+representative `canonOf r` (same nodes, children and values — the same Python dicts —, keys in
+increasing order, `reboot` cleared), and that is what `load` returns. -/
+
+theorem mem_sortDict {α : Type} {d : PDict Int α} {kv : Int × α} : kv ∈ sortDict d ↔ kv ∈ d :=
+  (sortBy_perm intLt d).mem_iff
+
+theorem keys_sortDict_perm {α : Type} (d : PDict Int α) : (PDict.keys (sortDict d)).Perm (PDict.keys d) :=
+  (sortBy_perm intLt d).map _
+
+theorem mem_keys_insertBy {α : Type} (kv : Int × α) (l : PDict Int α) (k : Int) :
+    k ∈ PDict.keys (insertBy intLt kv l) ↔ k = kv.1 ∨ k ∈ PDict.keys l := by
+  have := ((insertBy_perm intLt kv l).map (·.1)).mem_iff (a := k)
+  simpa [PDict.keys] using this
+
+theorem insertBy_sorted {α : Type} (kv : Int × α) (l : PDict Int α) (hs : (PDict.keys l).Pairwise (· < ·))
+    (hk : kv.1 ∉ PDict.keys l) : (PDict.keys (insertBy intLt kv l)).Pairwise (· < ·) := by
+  induction l with
+  | nil => simp [insertBy, PDict.keys]
+  | cons x xs ih =>
+    simp only [PDict.keys, List.map_cons, List.pairwise_cons, List.mem_cons, not_or] at hs hk
+    simp only [insertBy, intLt]
+    by_cases hlt : x.1 < kv.1
+    · simp only [hlt, decide_true, if_true]
+      show (x.1 :: PDict.keys (insertBy intLt kv xs)).Pairwise (· < ·)
+      rw [List.pairwise_cons]
+      refine ⟨?_, ih hs.2 hk.2⟩
+      intro k hkm
+      rcases (mem_keys_insertBy kv xs k).mp hkm with rfl | hm
+      · exact hlt
+      · exact hs.1 k hm
+    · simp only [hlt, decide_false, Bool.false_eq_true, if_false]
+      show (kv.1 :: x.1 :: PDict.keys xs).Pairwise (· < ·)
+      have hlt' : kv.1 < x.1 := by have := hk.1; omega
+      rw [List.pairwise_cons, List.pairwise_cons]
+      refine ⟨?_, hs.1, hs.2⟩
+      intro k hkm
+      rcases List.mem_cons.mp hkm with rfl | hm
+      · exact hlt'
+      · exact Int.lt_trans hlt' (hs.1 k hm)
+
+/-- Sorting a dict (no key twice) puts its keys in increasing order. -/
+theorem sortDict_sorted {α : Type} (d : PDict Int α) (h : (PDict.keys d).Nodup) :
+    (PDict.keys (sortDict d)).Pairwise (· < ·) := by
+  induction d with
+  | nil => simp [sortDict, sortBy, PDict.keys]
+  | cons x xs ih =>
+    simp only [PDict.keys, List.map_cons, List.nodup_cons] at h
+    simp only [sortDict, sortBy, List.foldr_cons]
+    apply insertBy_sorted
+    · exact ih h.2
+    · intro hm
+      exact h.1 ((keys_sortDict_perm xs).mem_iff.mp hm)
+
+theorem valuesOK_sortDict (vs : PDict Int Str) (h : ValuesOK vs) : ValuesOK (sortDict vs) :=
+  ⟨(keys_sortDict_perm vs).nodup_iff.mpr h.nodup, fun k hk => h.keys k ((keys_sortDict_perm vs).mem_iff.mp hk)⟩
+
+theorem keys_map_snd {α β : Type} (d : PDict Int α) (f : α → β) :
+    PDict.keys (d.map fun kv => (kv.1, f kv.2)) = PDict.keys d := by
+  simp [PDict.keys, List.map_map, Function.comp_def]
+
+theorem nodeOK_canonNode (id : Int) (n : Node) (h : NodeOK id n) : NodeOK id (canonNode n) := by
+  refine ⟨h.id_lo, h.id_hi, h.bat_lo, h.bat_hi, ?_, ?_⟩
+  · simp only [canonNode]
+    exact (keys_sortDict_perm _).nodup_iff.mpr (by rw [keys_map_snd]; exact h.children_nodup)
+  · intro kc hkc
+    simp only [canonNode] at hkc
+    obtain ⟨kc0, hkc0, rfl⟩ := List.mem_map.mp (mem_sortDict.mp hkc)
+    have := h.children kc0 hkc0
+    exact ⟨this.key_ok, valuesOK_sortDict _ this.values⟩
+
+theorem regOK_canonReg (r : PDict Int Node) (h : RegOK r) : RegOK (canonReg r) := by
+  refine ⟨?_, ?_⟩
+  · simp only [canonReg]
+    exact (keys_sortDict_perm _).nodup_iff.mpr (by rw [keys_map_snd]; exact h.nodup)
+  · intro kn hkn
+    simp only [canonReg] at hkn
+    obtain ⟨kn0, hkn0, rfl⟩ := List.mem_map.mp (mem_sortDict.mp hkn)
+    exact nodeOK_canonNode _ _ (h.nodes kn0 hkn0)
+
+theorem regIntsOK_canonReg (r : PDict Int Node) (h : regIntsOK r = true) : regIntsOK (canonReg r) = true := by
+  simp only [regIntsOK, List.all_eq_true] at h ⊢
+  intro kn hkn
+  simp only [canonReg] at hkn
+  obtain ⟨kn0, hkn0, rfl⟩ := List.mem_map.mp (mem_sortDict.mp hkn)
+  have := h kn0 hkn0
+  simp only [nodeIntsOK, Bool.and_eq_true, List.all_eq_true] at this ⊢
+  refine ⟨this.1, ?_⟩
+  intro kc hkc
+  simp only [canonNode] at hkc
+  obtain ⟨kc0, hkc0, rfl⟩ := List.mem_map.mp (mem_sortDict.mp hkc)
+  exact this.2 kc0 hkc0
+
+/-- The canonical representative of a registry: the same dicts in key order, `reboot` cleared. -/
+def canonOf (r : PDict Int Node) : PDict Int Node := persisted (canonReg r)
+
+theorem canon_canonOf (r : PDict Int Node) (h : RegOK r) : Canon (canonOf r) := by
+  have hmem : ∀ kn ∈ canonOf r, ∃ kn0 ∈ r, kn = (kn0.1, { canonNode kn0.2 with reboot := false }) := by
+    intro kn hkn
+    simp only [canonOf, persisted, canonReg] at hkn
+    obtain ⟨kn1, hkn1, rfl⟩ := List.mem_map.mp hkn
+    obtain ⟨kn0, hkn0, rfl⟩ := List.mem_map.mp (mem_sortDict.mp hkn1)
+    exact ⟨kn0, hkn0, rfl⟩
+  refine ⟨?_, ?_, ?_, ?_⟩
+  · rw [canonOf, keys_persisted]
+    simp only [canonReg]
+    exact sortDict_sorted _ (by rw [keys_map_snd]; exact h.nodup)
+  · intro kn hkn
+    obtain ⟨kn0, hkn0, rfl⟩ := hmem kn hkn
+    simp only [canonNode]
+    exact sortDict_sorted _ (by rw [keys_map_snd]; exact (h.nodes kn0 hkn0).children_nodup)
+  · intro kn hkn kc hkc
+    obtain ⟨kn0, hkn0, rfl⟩ := hmem kn hkn
+    simp only [canonNode] at hkc
+    obtain ⟨kc0, hkc0, rfl⟩ := List.mem_map.mp (mem_sortDict.mp hkc)
+    simp only [canonChild]
+    exact sortDict_sorted _ ((h.nodes kn0 hkn0).children kc0 hkc0).values.nodup
+  · intro kn hkn
+    obtain ⟨kn0, _, rfl⟩ := hmem kn hkn
+    rfl
+
+/-- The canonical representative holds the same nodes, children and values (as Python dicts, which
+compare regardless of order, it is the same registry up to the `reboot` flag). -/
+theorem canonReg_perm (r : PDict Int Node) : (canonReg r).Perm (r.map fun kn => (kn.1, canonNode kn.2)) :=
+  sortBy_perm intLt _
+
+theorem canonNode_children_perm (n : Node) :
+    (canonNode n).children.Perm (n.children.map fun kc => (kc.1, canonChild kc.2)) :=
+  sortBy_perm intLt _
+
+theorem canonChild_values_perm (c : Child) : (canonChild c).values.Perm c.values := sortBy_perm intLt _
+
+theorem saveNodeS_persisted (id : Int) (n : Node) : saveNodeS id { n with reboot := false } = saveNodeS id n := rfl
+
+/-- Saving a registry writes the file of its canonical representative. -/
+theorem saveSorted_canonOf (r : PDict Int Node) (h : RegOK r) : saveSorted (canonOf r) = saveSorted r := by
+  have hc := canonReg_of_canon _ (canon_canonOf r h)
+  simp only [saveSorted, hc]
+  simp only [canonOf, persisted, List.map_map, Function.comp_def, saveNodeS_persisted]
+
+theorem saveBytes_canonOf (r : PDict Int Node) (h : RegOK r) : saveBytes (canonOf r) = saveBytes r := by
+  simp only [saveBytes, saveText, saveSorted_canonOf r h]
+
+theorem regOK_persisted (r : PDict Int Node) (h : RegOK r) : RegOK (persisted r) := by
+  refine ⟨by rw [keys_persisted]; exact h.nodup, ?_⟩
+  intro kn hkn
+  simp only [persisted] at hkn
+  obtain ⟨kn0, hkn0, rfl⟩ := List.mem_map.mp hkn
+  have := h.nodes kn0 hkn0
+  exact ⟨this.id_lo, this.id_hi, this.bat_lo, this.bat_hi, this.children_nodup, this.children⟩
+
+theorem regOK_canonOf (r : PDict Int Node) (h : RegOK r) : RegOK (canonOf r) :=
+  regOK_persisted _ (regOK_canonReg r h)
+
+theorem regIntsOK_canonOf (r : PDict Int Node) (h : regIntsOK r = true) : regIntsOK (canonOf r) = true := by
+  have := regIntsOK_canonReg r h
+  simp only [regIntsOK, List.all_eq_true] at this ⊢
+  intro kn hkn
+  simp only [canonOf, persisted] at hkn
+  obtain ⟨kn0, hkn0, rfl⟩ := List.mem_map.mp hkn
+  exact this kn0 hkn0
+
+/-- **Round trip through the text for a registry in any order**: the text parses to the value
+handed to `json.dumps`, whose load is the canonical representative. -/
+theorem text_round_trip_any (r : PDict Int Node) (h : RegOK r) (hi : regIntsOK r = true) :
+    parse (saveText r) = .ok (saveSorted r) ∧ load (saveSorted r) = .ok (canonOf r) := by
+  have hc := canon_canonOf r h
+  have h1 := parse_saveText (canonOf r) (regOK_canonOf r h) (regIntsOK_canonOf r hi) hc
+  have h2 := load_saveSorted (canonOf r) (regOK_canonOf r h) hc
+  simp only [saveText, saveSorted_canonOf r h] at h1 h2
+  exact ⟨h1, h2⟩
+
 end AioMySensors.Persist
